@@ -99,6 +99,10 @@ VARIANTS = [
 VARIANTS.append(Variant('v20-ldr-nooverlays', 20, 'STD', sprp=(6, 64), comma=True, empty=('overlays', 'hdr')))
 VARIANTS.append(Variant('v21-nofaces', 21, 'STD', sprp=(9, 72), comma=False, empty=('faces', 'overlays')))
 VARIANTS.append(Variant('v19-ldr', 19, 'V19', sprp=(5, 60), comma=True, empty=('hdr',), lump_versions={L['LEAFS']: 0}))
+# failing parsers: the view access raises, the caller catches it and saves anyway — nothing may be lost
+VARIANTS.append(Variant('v20-bad-props-version', 20, 'STD', sprp=(10, 72), comma=True, spice='props-unknown-version'))
+VARIANTS.append(Variant('v21-corrupt-cubemaps', 21, 'STD', sprp=(9, 72), comma=False, spice='cubemaps-truncated',
+                        compress=(L['CUBEMAPS'],), lzma=True))
 VARIANTS.append(Variant('v25-chaos-frac', 25, 'CHAOS', sprp=(12, 80), comma=False, lump_versions={L['LEAFS']: 2},
                         spice='chaos-fractional-bounds'))
 
@@ -137,7 +141,18 @@ def _spice_delay(lumps, game, v):
     lumps[L['ENTITIES']] = lumps[L['ENTITIES']].replace(b'0.25', b'0.1234567')
 
 
-SPICES = {'chaos-fractional-bounds': _spice_chaos_frac, 'no-zero-vertex': _spice_no_zero_vertex,
+def _spice_props_version(lumps, game, v):
+    for i, (gid, flags, ver, data) in enumerate(game):
+        if gid == b'sprp':
+            game[i] = (gid, flags, 99, data)
+
+
+def _spice_cubemaps_truncated(lumps, game, v):
+    lumps[L['CUBEMAPS']] = lumps[L['CUBEMAPS']][:-3]
+
+
+SPICES = {'props-unknown-version': _spice_props_version, 'cubemaps-truncated': _spice_cubemaps_truncated,
+          'chaos-fractional-bounds': _spice_chaos_frac, 'no-zero-vertex': _spice_no_zero_vertex,
           'faceids-missing': _spice_faceids_missing, 'output-delay-digits': _spice_delay}
 
 
